@@ -5,12 +5,13 @@
        (Gen/T_util_misc.v) and the copies inside the kernel files (identical definitions),
      * the translated kernels forward._compute_damping_deriv, forward._euler_damp_qfrc (Gen/kforward.v),
        derivative._qderiv_actuator_passive, derivative.deriv_rne_body2jnt_sparse (Gen/T_derivative.v),
-       passive._spring_damper_dof_passive (Gen/T_passive.v),
+       derivative._qderiv_tendon_damping, passive._spring_damper_dof_passive,
+       passive._spring_damper_tendon_passive (Gen/T_passive.v),
      * the hand models of derivative._qderiv_actuator_passive_vel and forward._actuator_force
        (Model/Deriv.v; tied to the real kernels by the correspondence run of bin/props/C27.py),
      * the translated util_misc.muscle_gain / muscle_gain_vel (FV curve, away from its breakpoints).
    Not covered here (oracle only, bin/props/C27.py): the RNE forward/backward passes, the fluid
-   derivative kernels, the tendon-damping kernel, float32 rounding. *)
+   derivative kernels, the Jacobian-row search inside the tendon-damping kernel, float32 rounding. *)
 From Coq Require Import ZArith Reals List Bool Lra Lia String.
 Set Warnings "-ambiguous-paths".
 From Coquelicot Require Import Coquelicot.
@@ -805,4 +806,117 @@ Proof.
   - intros _. reflexivity.
   - intro Hc. discriminate Hc.
   - left. reflexivity.
+Qed.
+
+(* ===== 5. tendon damping: passive force kernel and its velocity derivative kernel ===== *)
+
+(* sum_{k < n} c (lo + k) *)
+Fixpoint sumZ (n : nat) (lo : Z) (c : Z -> R) : R :=
+  match n with O => 0 | S n' => c lo + sumZ n' (lo + 1)%Z c end.
+
+Lemma for_nat_ext {A} n : forall lo (acc : A) f g,
+  (forall i a, f i a = g i a) -> for_nat n lo acc f = for_nat n lo acc g.
+Proof. induction n; intros; simpl; auto. rewrite H. apply IHn. exact H. Qed.
+
+Lemma for_nat_sub n : forall lo acc (c : Z -> R),
+  for_nat n lo acc (fun t a => a - c t) = acc + sumZ n lo (fun t => - c t).
+Proof. induction n; intros; simpl. lra. rewrite IHn. lra. Qed.
+
+Lemma sumZ_scal n : forall lo (c : Z -> R) k, k * sumZ n lo c = sumZ n lo (fun t => k * c t).
+Proof. induction n; intros; simpl. lra. rewrite <- IHn. lra. Qed.
+
+Lemma sumZ_ext n : forall lo (c d : Z -> R), (forall t, c t = d t) -> sumZ n lo c = sumZ n lo d.
+Proof. induction n; intros; simpl; auto. rewrite H. f_equal. apply IHn. exact H. Qed.
+
+Theorem qderiv_tendon_damping_write :
+  forall (w e ntendon : Z) (rownnz rowadr colind : Z -> Z) (M_elemid : Z -> Z -> Z)
+         (ten_J_in : Z -> Z -> R) (Mi Mj : Z -> Z),
+  exists JJ : Z -> R,
+  forall (opt_timestep : Z -> R) (tdamp : Z -> Z -> R) (tpoly : Z -> Z -> list R) (tvel qDeriv_out : Z -> Z -> R)
+         (orc : nat -> Z) (sh0 sh1 sh2 : Z),
+    let madr := M_elemid (Mi e) (Mj e) in
+    let h := opt_timestep (Z.rem w sh2) in
+    (0 <= madr)%Z ->
+    exists D : Z -> R,
+      (forall t, is_derive (damper_force (tdamp (Z.rem w sh0) t) (tpoly (Z.rem w sh1) t)) (tvel w t) (D t)) /\
+      TD.k__qderiv_tendon_damping w e ntendon opt_timestep rownnz rowadr colind tdamp tpoly M_elemid ten_J_in tvel Mi Mj
+        qDeriv_out orc sh0 sh1 sh2
+      = [mkW "qDeriv_out" [w; madr] KSet
+           (VS (qDeriv_out w madr - h * sumZ (Z.to_nat ntendon) 0 (fun t => JJ t * D t)))].
+Proof.
+  intros. evar (JJ : Z -> R). exists JJ. intros.
+  exists (fun t => - U._poly_force_deriv (tdamp (Z.rem w sh0) t) (tpoly (Z.rem w sh1) t) (tvel w t) 1).
+  split. { intro t. apply damper_force_derive. }
+  unfold TD.k__qderiv_tendon_damping. cbv zeta. fold madr.
+  replace (Z.ltb madr 0) with false by (symmetry; apply Z.ltb_ge; lia).
+  unfold for_range at 1. replace (ntendon - 0)%Z with ntendon by lia.
+  erewrite (for_nat_ext (Z.to_nat ntendon) 0%Z _ _
+             (fun t a => a - JJ t * U._poly_force_deriv (tdamp (Z.rem w sh0) t) (tpoly (Z.rem w sh1) t) (tvel w t) 1)).
+  2:{ intros t a. cbv beta.
+      set (d := tdamp (Z.rem w sh0) t). set (p := tpoly (Z.rem w sh1) t).
+      match goal with |- context [if ?g then true else false] => destruct g eqn:G end.
+      2:{ simpl negb. cbv iota.
+          match goal with |- ssub ?a0 (smul (smul ?x ?y) ?z) = _ => change (ssub a0 (smul (smul x y) z)) with (a0 - (x * y) * z) end.
+          rewrite td_poly_deriv_eq. unfold Rminus. apply f_equal. apply f_equal.
+          apply (f_equal (fun q => q * U._poly_force_deriv d p (tvel w t) 1)). unfold JJ. reflexivity. }
+      (* all coefficients zero: the skipped term is zero *)
+      simpl negb. cbv iota.
+      apply andb_true_iff in G. destruct G as [G G3]. apply andb_true_iff in G. destruct G as [G1 G2].
+      change (Reqb d 0 = true) in G1. change (Reqb (vget p 0) 0 = true) in G2. change (Reqb (vget p 1) 0 = true) in G3.
+      apply Reqb_true in G1, G2, G3.
+      replace (U._poly_force_deriv d p (tvel w t) 1) with 0.
+      2:{ rewrite poly_force_deriv_formula, G1, G2, G3. ring. }
+      rewrite Rmult_0_r, Rminus_0_r. reflexivity. }
+  rewrite for_nat_sub. simpl app.
+  match goal with |- [mkW _ _ _ (VS ?a)] = [mkW _ _ _ (VS ?b)] => replace a with b; [reflexivity|] end.
+  unfold rdS, rdv, rd_val. simpl fold_left. cbn [ssub smul sadd sofZ sneg ScalarR]. fold h.
+  match goal with |- _ = _ - (0 + sumZ ?n ?lo ?f) * h =>
+    replace (sumZ n lo f)
+      with (sumZ n lo (fun t => JJ t * - U._poly_force_deriv (tdamp (Z.rem w sh0) t) (tpoly (Z.rem w sh1) t) (tvel w t) 1))
+      ; [ | apply sumZ_ext; intro t0; cbv beta; rewrite poly_force_deriv_formula; unfold xval; simpl Z.eqb; cbv iota; ring ] end.
+  ring.
+Qed.
+
+(* sum of the values a write list atomically ADDS to index [i] of array [a] *)
+Fixpoint wadded (ws : list (write R)) (a : string) (i : list Z) : R :=
+  match ws with
+  | nil => 0
+  | w :: r =>
+      (if String.eqb (w_arr w) a && zs_eqb (w_idx w) i
+       then match w_kind w, w_val w with KAdd, VS x => x | _, _ => 0 end else 0) + wadded r a i
+  end.
+
+(* passive._spring_damper_tendon_passive, task (world, tendon, k-th Jacobian entry), damper enabled:
+   it adds  J[t,k] * damper_force(damping_t, dpoly_t, v_t)  to qfrc_damper_out[w, colind]
+   (also when all coefficients are 0: the force is then 0) *)
+Theorem passive_tendon_damper_kernel :
+  forall (w t k : Z) (rownnz rowadr colind : Z -> Z) (tstiff : Z -> Z -> R) (tspoly : Z -> Z -> list R)
+         (tdamp : Z -> Z -> R) (tpoly : Z -> Z -> list R) (tls : Z -> Z -> list R)
+         (ten_J_in ten_length_in ten_velocity_in : Z -> Z -> R) (dsbl_spring : bool)
+         (qso qdo : Z -> Z -> R) (orc : nat -> Z) (sh0 sh1 sh2 sh3 sh4 : Z),
+    (0 <= k < rownnz t)%Z ->
+    let adr := (rowadr t + k)%Z in
+    wadded (TP.k__spring_damper_tendon_passive w t k rownnz rowadr colind tstiff tspoly tdamp tpoly tls ten_J_in
+              ten_length_in ten_velocity_in dsbl_spring false qso qdo orc sh0 sh1 sh2 sh3 sh4)
+           "qfrc_damper_out" [w; colind adr]
+    = ten_J_in w adr * damper_force (tdamp (Z.rem w sh2) t) (tpoly (Z.rem w sh3) t) (ten_velocity_in w t).
+Proof.
+  intros. unfold TP.k__spring_damper_tendon_passive. cbv zeta. fold adr.
+  replace (Z.geb k (rownnz t)) with false by (symmetry; rewrite Z.geb_leb; apply Z.leb_gt; lia).
+  set (d := tdamp (Z.rem w sh2) t). set (p := tpoly (Z.rem w sh3) t). set (v := ten_velocity_in w t).
+  set (hs := (_ || _ || _) && negb dsbl_spring).
+  simpl (negb false). rewrite andb_true_r.
+  destruct (sneb d (sofZ 0) || sneb (vget p 0) (sofZ 0) || sneb (vget p 1) (sofZ 0)) eqn:G.
+  - replace (negb hs && negb true) with false by (destruct hs; reflexivity). cbv iota.
+    destruct hs; simpl app; simpl wadded; rewrite ?Z.eqb_refl; simpl;
+      unfold damper_force; change (TP._poly_force d p v 1) with (U._poly_force d p v 1); cbn [smul sneg ScalarR]; rewrite ?poly_force_is_coefficient; unfold xval; simpl Z.eqb; cbv iota; ring.
+  - assert (Hz : d = 0 /\ vget p 0 = 0 /\ vget p 1 = 0).
+    { apply orb_false_iff in G. destruct G as [G G3]. apply orb_false_iff in G. destruct G as [G1 G2].
+      unfold sneb in G1, G2, G3. apply negb_false_iff in G1, G2, G3.
+      change (Reqb d 0 = true) in G1. change (Reqb (vget p 0) 0 = true) in G2. change (Reqb (vget p 1) 0 = true) in G3.
+      apply Reqb_true in G1, G2, G3. auto. }
+    destruct Hz as (Z1 & Z2 & Z3).
+    replace (damper_force d p v) with 0 by (unfold damper_force; rewrite poly_force_is_coefficient, Z1, Z2, Z3; ring).
+    rewrite Rmult_0_r.
+    destruct hs; simpl negb; simpl andb; cbv iota; simpl app; simpl wadded; rewrite ?Z.eqb_refl; simpl; ring.
 Qed.
